@@ -71,8 +71,9 @@ ASSUMPTIONS = [
     "store_history/silent and valid execute requests on control are not generated (not covered by the text)",
 ]
 TIERS = {
-    "quick": {"runs": 1600, "chunk": 50, "max_reqs": 10},
-    "thorough": {"runs": 26000, "chunk": 200, "max_reqs": 12, "chunk_timeout": 1500},
+    "quick": {"runs": 4000, "chunk": 125, "max_reqs": 10, "shrink_budget": 30, "max_shrink": 4},
+    "thorough": {"runs": 60000, "chunk": 500, "max_reqs": 12, "chunk_timeout": 2400, "shrink_budget": 60,
+                 "max_shrink": 6},
 }
 REACH_PROBES = [
     "cut_inside_length_prefix", "cut_inside_long_length", "cut_between_header_and_body", "boundary_255_256",
@@ -82,7 +83,7 @@ REACH_PROBES = [
     "truncated_connection", "reconnect_after_eof", "pipelined_requests", "request_over_255", "long_identity",
     "error_cell", "stdout_cell", "result_cell", "witness_cell", "session_killed_by_tamper", "port_busy",
     "request_cut_inside_length_prefix", "heartbeat_long", "stdout_after_idle", "stdout_misparented",
-    "control_request", "name_error_cell",
+    "control_request", "name_error_cell", "print_then_fail_pipelined",
 ]
 SHRINK_LISTS = [["ops"], ["spec", "msgs"], ["spec", "msgs", "*", "frames"], ["spec", "cuts", "pos"],
                 ["spec", "eof", "pos"], ["ops", "*", "cell"], ["ops", "*", "cuts"], ["ops", "*", "ids"]]
@@ -196,7 +197,8 @@ def _gen_frame_mode(rng: random.Random, tier: str) -> dict:
         if n <= 700 and rng.random() < 0.15:
             cuts = {"mode": "bytes", "pos": []}
         else:
-            cuts = {"mode": "list", "pos": _gen_cuts(rng, wire)}
+            cuts = {"mode": "list", "pos": _gen_cuts(rng, wire),
+                    "more": [rng.randrange(1 << 30) for _ in range(rng.choice([0, 2, 4, 6]))]}
         hot = _interesting_offsets(wire)
         pos = set()
         for _ in range(rng.choice([0, 1, 2, 3])):
@@ -491,6 +493,25 @@ def _gen_proto_mode(rng: random.Random, tier: str) -> dict:
             op["kind"] = "trunc"
             op["at"] = rng.random()
             ops.append(op)
+    motif = rng.random() < 0.12
+    if motif:
+        # a cell that prints and then fails, with the next request already queued behind it (front ends
+        # queue cells on "run all"): exercises the ordering of stdout against the outputs of the next cell
+        pos = rng.randint(0, len(ops))
+        first = _gen_req(rng, 1000 + pos, key, False)
+        first.update({"mt": "execute_request", "sep": "\n",
+                      "cell": [["print", ["s", f"m{pos}"]], ["raise", rng.choice(ERRS), f"motif {pos}"]]})
+        first.pop("content", None)
+        second = _gen_req(rng, 1001 + pos, key, False)
+        second.pop("passes", None)
+        second["dt"] = 0.0
+        second["motif_tail"] = True
+        if rng.random() < 0.6:
+            second.update({"mt": "execute_request", "sep": "\n",
+                           "cell": rng.choice([[["expr", ["v", "nodef"]]], [["raise", "KeyError", "k"]],
+                                               [["print", ["s", "tail"]]], [["expr", ["i", 7]]]])})
+            second.pop("content", None)
+        ops[pos:pos] = [first, second]
     if steer and n_faults:
         # tampered requests only at the tail: the session-ending reaction of the kernel cannot mask the rest
         for _ in range(min(n_faults, 2)):
@@ -503,6 +524,8 @@ def _gen_proto_mode(rng: random.Random, tier: str) -> dict:
     for idx, op in enumerate(ops):
         if op["kind"] in ("req", "trunc"):
             _place_cuts(rng, op, key, idx)
+            if op.get("motif_tail"):
+                op["cuts"] = []
         elif op["kind"] == "hb":
             wire = N.enc_message([b"", N.payload(op["len"], op["seed"])])
             op["cuts"] = _gen_cuts(rng, wire, 4)
@@ -627,9 +650,18 @@ def _viol(cls: str, sig: dict, detail: str, t: float = 0.0) -> dict:
     return {"class": cls, "sig": sig, "detail": detail[:900], "t": round(t, 6)}
 
 
-def _frame_cases(spec: dict, n: int) -> list[tuple[list[int], int]]:
+def _frame_cases(spec: dict, n: int, hot: list[int]) -> list[tuple[list[int], int]]:
     """(cuts, eof_at) cases; eof_at == n is the clean close after the whole stream."""
     cm = spec["cuts"]["mode"]
+    more = []
+    for seed in spec["cuts"].get("more") or []:
+        # additional seeded fragmentations of the same stream (cheap: ~0.2 ms each)
+        rnd = random.Random(seed)
+        cuts = set()
+        for _ in range(rnd.choice([1, 2, 3, 5, 8, 13])):
+            if n >= 2:
+                cuts.add(rnd.choice(hot) if hot and rnd.random() < 0.6 else rnd.randint(1, n - 1))
+        more.append(sorted(cuts))
     if cm == "all1":
         cut_sets = [[]] + [[c] for c in range(1, n)]
     elif cm == "all2":
@@ -638,7 +670,7 @@ def _frame_cases(spec: dict, n: int) -> list[tuple[list[int], int]]:
         cut_sets = [list(range(1, n))]
     else:
         cut_sets = [sorted({c for c in spec["cuts"]["pos"] if 0 < c < n})]
-    cases = [(cuts, n) for cuts in cut_sets]
+    cases = [(cuts, n) for cuts in cut_sets + more]
     em = spec["eof"]["mode"]
     eofs = list(range(0, n)) if em == "all" else sorted({p for p in spec["eof"]["pos"] if 0 <= p < n})
     base = cut_sets[-1] if cm in ("bytes", "list") else []
@@ -794,7 +826,11 @@ def _run_frame(scn: dict) -> dict:
             probe("command_between_messages")
         if any(fr["flags"] & N.FLAG_CMD and fr["hdr"] == 9 for fr in layout):
             probe("long_command")
-        cases = _frame_cases(spec, n)
+        hot = []
+        for fr in layout:
+            hot.extend(range(fr["off"] + 1, fr["off"] + fr["hdr"] + 1))
+            hot.append(fr["off"] + fr["hdr"] + fr["size"])
+        cases = _frame_cases(spec, n, [h for h in hot if 0 < h < n])
         if spec["cuts"]["mode"] in ("all1", "all2"):
             probe("exhaustive_cuts")
         if spec["cuts"]["mode"] == "bytes":
@@ -1018,17 +1054,6 @@ async def _proto_driver(w: JupyterWorld, scn: dict, rec: dict) -> None:
             rec["handshake_bad"].append(chan)
     rec["t_ready"] = w.loop.vt
 
-    def replies_so_far() -> set:
-        seen = set()
-        for conn in rec["conns"]:
-            if conn.name != "shell":
-                continue
-            for ev in conn.decoder.messages():
-                parsed = N.parse_jupyter(ev["frames"], key.encode("utf-8"))
-                if parsed["ok"]:
-                    seen.add(parsed["parent"].get("msg_id"))
-        return seen
-
     for idx, op in enumerate(scn["ops"]):
         await wait_op(w, op)
         kind = op["kind"]
@@ -1076,7 +1101,6 @@ async def _proto_driver(w: JupyterWorld, scn: dict, rec: dict) -> None:
             wire = wire[:at]
             cuts = [c for c in cuts if c < at]
         if entry["tampered"]:
-            entry["answered_before"] = replies_so_far()
             w.fault("tamper_" + op["fault"]["t"])
             fr = op["fault"].get("frame")
             if op["fault"]["t"] == "key":
@@ -1210,10 +1234,11 @@ def _oracle_proto(w: JupyterWorld, scn: dict, rec: dict):
                                     f"request #{ent['idx']} ({ent['op']['mt']}, fault {ent['op'].get('fault')}) "
                                     f"was answered with {msg['type']}", rel(msg["stamp"])))
         else:
-            cls = "C19.tampered_answered" if any(e["ch"] == "shell" for e in tampers) else "C19.unsolicited_reply"
-            violations.append(_viol(cls, {"fault": "unattributed"},
-                                    f"shell message {msg['type']} with parent {msg['parent']} answers no valid request",
-                                    rel(msg["stamp"])))
+            n_bad = sum(1 for e in tampers if e["ch"] == "shell")
+            violations.append(_viol("C19.reply_parent", {"why": "matches_no_request"},
+                                    f"shell message {msg['type']} with parent_header {msg['parent']} carries the header "
+                                    f"of no request that was sent (a reply with a wrong parent, or an answer to one of "
+                                    f"the {n_bad} corrupted requests)", rel(msg["stamp"])))
 
     # ---- never executed: the witness entity only ever takes values written by valid cells
     wit_owner = {}
@@ -1254,15 +1279,18 @@ def _oracle_proto(w: JupyterWorld, scn: dict, rec: dict):
         # reaction (session shutdown) is reported once as no_reply{after: tamper}; what follows is tainted
         after = "none"
         for t in tampers:
-            if mid not in t.get("answered_before", set()):
-                after = "tamper"
+            tseq = t["stamp"][0]
+            done = bool(got) and got[0]["stamp"][0] < tseq and any(
+                got[0]["stamp"][0] < s["stamp"][0] < tseq for s in statuses)
+            if not done:
+                after = "tamper"  # not completely handled (reply + following status) when the bad message arrived
         if not got:
             if after == "none" or not kill_reported:
                 kill_reported = kill_reported or after == "tamper"
                 what = (f"valid {e['op']['mt']} #{e['idx']} delivered completely at t={rel(e['stamp'])} on shell "
                         f"connection {e['conn']} got no reply by t={round(rec['t_end'] - vt0, 3)}")
                 if after == "tamper":
-                    t = [t for t in tampers if mid not in t.get("answered_before", set())][0]
+                    t = tampers[0]
                     what += (f"; a request with a bad signature (#{t['idx']} on {t['ch']}, {t['op']['fault']}) was "
                              f"delivered at t={rel(t['stamp'])}: the kernel shut the whole session down and "
                              "neither reads nor closes this connection")
@@ -1282,7 +1310,7 @@ def _oracle_proto(w: JupyterWorld, scn: dict, rec: dict):
             violations.append(_viol("C19.reply_identities", {},
                                     desc + f": identities {_short(rep['ids'])} != request's {_short(e['ids'])}", t_rep))
         if rep["parent"] != e["header"]:
-            violations.append(_viol("C19.reply_parent", {}, desc + f": parent_header {rep['parent']} != request header",
+            violations.append(_viol("C19.reply_parent", {"why": "differs"}, desc + f": parent_header {rep['parent']} != request header",
                                     t_rep))
         if rep["type"] != e["op"]["mt"].replace("_request", "_reply"):
             violations.append(_viol("C19.reply_type", {}, desc + ": wrong reply type", t_rep))
@@ -1318,7 +1346,9 @@ def _oracle_proto(w: JupyterWorld, scn: dict, rec: dict):
     for e in answered:
         if e["op"]["mt"] != "execute_request":
             continue
+        e["env_before"] = dict(env)
         model = model_cell(e["op"]["cell"], env)
+        e["model"] = model
         rep = e["reply"]
         t_rep = rel(rep["stamp"])
         cont = rep["content"]
@@ -1355,21 +1385,18 @@ def _oracle_proto(w: JupyterWorld, scn: dict, rec: dict):
                 w.probe("witness_cell")
         count += 1
 
-    answered_ids = {e["header"]["msg_id"] for e in answered}
-    known_ids = set(by_id)
+    for a, b in zip(answered, answered[1:]):
+        mod = a.get("model")
+        if mod and mod["streams"] and mod["error"] and b["stamp"][0] < a["reply"]["stamp"][0]:
+            w.probe("print_then_fail_pipelined")
 
     def observed(kind: str) -> list[dict]:
-        out = []
-        for m in iopub:
-            if m["type"] != kind:
-                continue
-            pid = m["parent"].get("msg_id")
-            if dead and pid in known_ids and pid not in answered_ids:
-                continue  # output of a cell that was cut off by the session shutdown: not judged
-            out.append(m)
-        return out
+        return [m for m in iopub if m["type"] == kind]
 
     def compare(kind: str, obs: list[dict], exp: list[dict], show_o, show_e, same) -> bool:
+        if dead and len(obs) > len(exp):
+            # outputs of cells that were pending when a bad-signature message ended the session: not judged
+            del obs[len(exp):]
         ok = len(obs) == len(exp) and all(same(o, x) for o, x in zip(obs, exp))
         if not ok:
             i = 0
@@ -1397,14 +1424,20 @@ def _oracle_proto(w: JupyterWorld, scn: dict, rec: dict):
                    lambda o, x: o["content"].get("ename") == x["err"][0]
                    and (x["err"][1] is None or o["content"].get("evalue") == x["err"][1]))
     if ok_s and ok_r and ok_e:
+        t_of = {o["stamp"][0]: rel(o["stamp"]) for o in obs_streams + obs_results + obs_errors}
         merged = sorted([(o["stamp"][0], x["req"]["idx"], o["type"]) for o, x in
                          list(zip(obs_streams, exp_streams)) + list(zip(obs_results, exp_results))
                          + list(zip(obs_errors, exp_errors))])
         hi = -1
         for seq, ridx, kind in merged:
             if ridx < hi:
-                violations.append(_viol("C19.output_order", {"kind": kind},
-                                        f"iopub {kind} of request #{ridx} came after an output of request #{hi}", 0.0))
+                owner = next(e for e in answered if e["idx"] == ridx)
+                path = "error" if model_cell(owner["op"]["cell"], dict(owner["env_before"]))["error"] else "ok"
+                later = next(e for e in answered if e["idx"] == hi)
+                violations.append(_viol("C19.output_order", {"kind": kind, "cell": path},
+                                        f"iopub {kind} of request #{ridx} ({cell_src(owner['op']['cell'], ' ; ')[:80]!r}, "
+                                        f"ends with {path}) was delivered after an output of the later request #{hi} "
+                                        f"({cell_src(later['op']['cell'], ' ; ')[:80]!r})", t_of.get(seq, 0.0)))
                 break
             hi = max(hi, ridx)
         for o, x in zip(obs_streams, exp_streams):
@@ -1523,6 +1556,15 @@ def simplify(scn: dict):
                     cand = copy.deepcopy(scn)
                     cand["spec"]["eof"] = {"mode": "list", "pos": [p]}
                     yield cand
+        if spec["cuts"].get("more"):
+            cand = copy.deepcopy(scn)
+            cand["spec"]["cuts"]["more"] = []
+            yield cand
+            for seed in spec["cuts"]["more"]:
+                cand = copy.deepcopy(scn)
+                cand["spec"]["cuts"]["more"] = [seed]
+                cand["spec"]["cuts"]["pos"] = []
+                yield cand
         if spec.get("delays") != [-1]:
             cand = copy.deepcopy(scn)
             cand["spec"]["delays"] = [-1]
